@@ -297,6 +297,54 @@ def dotted_tree(rng, pl):
     return tree
 
 
+NAMESAKE_FILE = "payload: a top-level file named like the torrent, beside other files and directories"
+NAMESAKE_DIR = "payload: a sub-directory named like the torrent"
+NAMESAKE_DEEP = "payload: a file named like the torrent inside a sub-directory"
+
+
+def namesake_tree(rng, pl, name, variant=None):
+    """
+    aimed: a DIRECTORY payload `name/` one of whose entries carries the torrent's own name.
+      'file': the top-level file name/name next to other top-level files and sub-directories (BEP 52: the file tree has the key
+              `name` with a leaf below it, exactly as the single-file form has -- but it is not the ONLY key, so the torrent is a
+              directory and the file belongs at dest/name/name);
+      'dir':  the sub-directory name/name/ (with files, one of which may again be called `name`), next to top-level files.
+    Always two or more files: the one-leaf tree {name: leaf} IS the single-file form (inherent to BEP 52) and stays out.
+    returns (tree, classes)
+    """
+    variant = variant or rng.choice(["file", "file", "file", "dir"])
+    small = lambda: rng.choice([1, 7, 100, 300, pl // 2, pl - 1])       # noqa: E731
+    big = lambda: rng.choice([pl, pl + 5, 2 * pl, 2 * pl + 17, 3 * pl - 1])       # noqa: E731
+    tree, cl = {}, {"structured layout"}
+    if variant == "file":
+        cl.add(NAMESAKE_FILE)
+        tree[(name,)] = rng.randbytes(rng.choice([big(), big(), small()]))
+        # sorts before and after the namesake under byte order ("tor0" < "tor0.nfo"; "other.bin" < "tor0" < "zz")
+        for c in rng.sample([("other.bin",), ("00_first",), ("zz_last.bin",), (name + ".nfo",), ("A.txt",)], rng.choice([1, 2, 3])):
+            tree[c] = rng.randbytes(rng.choice([small(), big(), 0] if len(tree) > 1 else [small(), big()]))
+        d = rng.choice(["sub", "00_d", "zz dir", name + ".d"])
+        tree[(d, rng.choice(["x.bin", "k"]))] = rng.randbytes(rng.choice([small(), big()]))
+        if rng.random() < 0.4:
+            tree[(d, "deeper", "y")] = rng.randbytes(small())
+        if rng.random() < 0.35:
+            tree[(d, name)] = rng.randbytes(rng.choice([3 * pl + 1, 55]))     # the name once more, one level down (other size)
+            cl.add(NAMESAKE_DEEP)
+    else:
+        cl.add(NAMESAKE_DIR)
+        tree[(name, rng.choice(["inner.bin", "00_i"]))] = rng.randbytes(rng.choice([big(), small()]))
+        if rng.random() < 0.5:
+            tree[(name, name)] = rng.randbytes(rng.choice([big(), small()]))   # name/name/name
+            cl.add(NAMESAKE_DEEP)
+        if rng.random() < 0.3:
+            tree[(name, name + "2", "z")] = rng.randbytes(small())
+        for c in rng.sample([("other.bin",), ("00_first",), ("zz_last.bin",), (name + ".nfo",)], rng.choice([1, 2])):
+            tree[c] = rng.randbytes(rng.choice([small(), big()]))
+        if rng.random() < 0.4:
+            tree[("sub", "x.bin")] = rng.randbytes(small())
+    cl.add("nested")
+    return tree, cl
+
+
 def gen_payload(rng, pl, idx):
     """returns (name, single, tree {comps: bytes}, classes)"""
     r = rng.random()
@@ -304,6 +352,10 @@ def gen_payload(rng, pl, idx):
     if r < 0.14:
         n = rng.choice([1, 100, pl - 1, pl, pl + 1, 2 * pl, 2 * pl + 5, 3 * pl - 1])
         return f"single{dots}{idx}.bin", True, {(): rng.randbytes(n)}, {"single file"}
+    if r < 0.22:
+        name = rng.choice([f"tor{dots}{idx}", f"proj{dots}{idx}", f"album {idx}.d"])
+        tree, classes = namesake_tree(rng, pl, name)
+        return name, False, tree, classes
     if r < 0.50:
         tree, classes = trees.gen_tree(rng, pl, max_files=6, single_prob=0.0, max_total=8)
         return f"tor{dots}{idx}", False, tree, classes
@@ -403,7 +455,8 @@ def layout_of(t):
         single = len(files) == 1 and files[0][0] == (name,)
         for comps, length, _root in files:
             rel = (name,) if single else (name,) + comps
-            out.append({"rel": rel, "length": length, "data": tree.get(() if single else comps), "offset": None})
+            # (a directory payload whose ONLY file is called like the torrent has this very tree: judged as the single file it denotes)
+            out.append({"rel": rel, "length": length, "data": tree.get(() if single and () in tree else comps), "offset": None})
         t["single_by_metafile"] = single
     else:
         off = 0
@@ -482,7 +535,9 @@ def gen_case(case_seed, profile, workdir, force_mode=None):
     dots, single metafiles and batches), 'boundary' (v1: a file of exactly k pieces followed by a file whose wholly different
     same-size decoy is enumerated before the intact copy), 'boundary-only' (the same, the decoy is the ONLY candidate of that
     file: C14 only, C13's premise does not hold), 'absent' (v1: a piece spans two files, the later file's NAME exists nowhere
-    in the search directories, the earlier file has a wholly different same-size decoy enumerated first: C14 only).
+    in the search directories, the earlier file has a wholly different same-size decoy enumerated first: C14 only), 'namesake'
+    (directory torrents -- v2, hybrid, v1; creators and reference encoder; single metafiles and batches -- with a top-level FILE
+    named like the torrent beside other files and directories, or a SUB-DIRECTORY named like the torrent).
     Everything is derived from case_seed.  Files are written under workdir.
     force_mode='cli-proc': the unpatched command line in a fresh interpreter (enumeration order of the filesystem).
     """
@@ -491,7 +546,7 @@ def gen_case(case_seed, profile, workdir, force_mode=None):
     cl = case["classes"]
     boundary = profile in ("boundary", "boundary-only")
     nb = 1 if rng.random() < 0.72 or profile in ("d27", "d28") else rng.choice([2, 2, 3])
-    if profile == "dotted" and rng.random() < 0.5:
+    if profile in ("dotted", "namesake") and rng.random() < 0.5:
         nb = rng.choice([2, 2, 3])
     if nb > 1:
         cl.add(f"batch of {nb} metafiles")
@@ -522,6 +577,11 @@ def gen_case(case_seed, profile, workdir, force_mode=None):
             pcl = {"nested", "structured layout", "same file name in two directories, whole-piece files"}
         if profile == "dotted" and (i == 0 or rng.random() < 0.5):
             name, single, tree, pcl = f"tor{rng.choice(['', '..'])}{i}", False, dotted_tree(rng, pl), {"nested", "structured layout"}
+        if profile == "namesake" and (i == 0 or rng.random() < 0.5):
+            # aimed: a directory torrent one of whose entries is called like the torrent; every creator and the reference encoder
+            kind = rng.choice(["v2-class", "v2-asm", "hybrid-class", "hybrid-asm", "ref2", "ref3", "ref2", "ref3", "v1", "ref1"])
+            name, single = rng.choice([f"tor{i}", f"proj{i}", f"proj..{i}", f"album {i}.d"]), False
+            tree, pcl = namesake_tree(rng, pl, name, variant=rng.choice(["file", "file", "file", "dir"]) if i == 0 else None)
         if boundary and i == 0:
             # aimed: v1, file A of exactly k pieces, then file B (and sometimes C): B starts on a piece boundary
             kind = rng.choice(["v1", "ref1"])
